@@ -299,6 +299,27 @@ pub fn decl_stress(bytes: &[u8]) -> String {
     let mut out = String::new();
     let mut uses = vec![];
     for (i, d) in decls.iter().enumerate() {
+        // a declaration without any xtor is accepted by the parser and the checker; a term of such a
+        // type can still be bound, passed and returned (an empty match is rejected, T-009)
+        if c.prob(36) {
+            let (tn, ti) = (format!("{}{}", d.name, plist(d.params)), format!("{}{}", d.name, ilist(d.params)));
+            out.push_str(&format!("{} {} {{ }}\n", if d.codata { "codata" } else { "data" }, tn));
+            if d.codata {
+                out.push_str(&format!("def mk{i}(n: i64): {ti} {{ new {{ }} }}\n"));
+            } else {
+                out.push_str(&format!("def mk{i}(n: i64): {ti} {{ exit n }}\n"));
+            }
+            out.push_str(&format!("def use{i}(x: {ti}, n: i64): i64 {{ n }}\n"));
+            let value = if d.codata { "new { }".to_string() } else { format!("mk{i}(3)") };
+            uses.push(match c.weighted(&[20, 20, 20, 20, 20]) {
+                0 => format!("use{i}(mk{i}(1), 2)"),
+                1 => format!("(let v{i}: {ti} = mk{i}(1); use{i}(v{i}, 2))"),
+                2 => format!("(let v{i}: {ti} = if 1 == 1 {{ {value} }} else {{ mk{i}(2) }}; use{i}(v{i}, 2))"),
+                3 => format!("(let v{i}: {ti} = label a{i} {{ {value} }}; 4)"),
+                _ => format!("use{i}(if 2 < 1 {{ mk{i}(5) }} else {{ {value} }}, 6)"),
+            });
+            continue;
+        }
         if !d.codata {
             let nx = c.weighted(&[20, 50, 30]);
             let mut xtors = vec![format!("N{i}")];
